@@ -82,6 +82,9 @@ def run_impl(case):
             'obs': r.obs,
             'lines': [show_obs(o) for o in r.obs],
             'handed': list(r.handed),
+            'handed_at': list(r.handed_at),
+            'goaway_at': dict(r.goaway_at),
+            'was_unregistered': sorted(r.was_unregistered),
             'max_in_flight': r.ce.max_in_flight,
             'failed_owners': list(r.ce.failed_owners),
             'made_by': list(r.ce.made_by),
@@ -89,6 +92,7 @@ def run_impl(case):
             'inflight_at_close': r.inflight_at_close,
             'final_stages': final_stages,
             'unhandled': [str(c.get('message'))[:80] for c in loop.unhandled],
+            'anomalies': list(r.anomalies),
         }
     return out
 
@@ -129,8 +133,22 @@ def oracle(case, imp):
                 path = 'owner-after-attempt'
             bad.append(('__connect__ handed a dead connection %s to caller %s' % (c, k),
                         {'kind': 'dead-protocol', 'path': path}))
+    #     a connection that received GOAWAY (any error code / last_stream_id / debug data) is known dead from that
+    #     moment: no call may be handed it in a later loop iteration
+    for (k, c, dead), at in zip(imp['handed'], imp['handed_at']):
+        if c is not None and c in imp['goaway_at'] and at > imp['goaway_at'][c] and not dead:
+            bad.append(('__connect__ handed connection %s, which had received GOAWAY, to caller %s' % (c, k),
+                        {'kind': 'dead-protocol', 'path': 'after-goaway'}))
+    #     every call ends in one of: reply, OSError of its own attempt, Cancelled, StreamTerminatedError;
+    #     anything else is an internal error
+    allowed = ('p', 'x:OSError', 'x:Cancelled', 'x:StreamTerminated')
     for k, c in enumerate(final):
-        if c in ('x:AttributeError', 'badreply') and not any(h[0] == k and h[2] for h in imp['handed']):
+        if not (c in allowed or c.startswith('ok:')) and not any(h[0] == k and h[2] for h in imp['handed']) \
+                and k not in imp['was_unregistered']:
+            bad.append(('caller %d ended with %s' % (k, c), {'kind': 'internal-error', 'stage': 'started'}))
+    for k, c in enumerate(final):
+        if not (c in allowed or c.startswith('ok:')) and k in imp['was_unregistered'] \
+                and not any(h[0] == k and h[2] for h in imp['handed']):
             # an internal error of a call that was woken on a connection closed meanwhile (same class as D6:
             # the call sits unregistered in protocol.Stream.send_request when the connection goes away)
             bad.append(('caller %d ended with %s' % (k, c), {'kind': 'internal-error', 'stage': 'unregistered'}))
@@ -233,7 +251,7 @@ def gen_case(rng, ka=None):
             elif r < 0.66:
                 b.append(['lose', conn_pick()])
             elif r < 0.73:
-                b.append(['goaway', conn_pick()])
+                b.append(gen_goaway(rng, conn_pick()))
             elif r < 0.80:
                 b.append(['close'])
             elif r < 0.83:
@@ -249,6 +267,45 @@ def gen_case(rng, ka=None):
                 nres += 1
         batches.append(b)
     case = {'script': script, 'ka': ka, 'batches': batches}
+    add_epilogue(case, ncallers)
+    return case
+
+
+def gen_goaway(rng, c):
+    """GOAWAY as a class: error code x last_stream_id {0, highest seen, 2**31-1} x debug data"""
+    return ['goaway', c, rng.choice([0, 0, 0, 1, 2, 7, 11, 13]), rng.choice(['zero', 'seen', 'max', 'max']),
+            rng.choice([0, 0, 1, 5])]
+
+
+def gen_after_goaway(rng):
+    """directed family: a connection with calls in flight (some answered) receives a GOAWAY of any kind; calls
+    started afterwards (same iteration or later, one or several) must reconnect -- exactly one new
+    create_connection -- and succeed"""
+    n = rng.choice([1, 2, 3])
+    batches = [[S[:] for _ in range(n)], [R[:]]]
+    ncallers = n
+    for k in range(n):
+        if rng.random() < 0.5:
+            batches.append([['answer', k]])
+    g = gen_goaway(rng, 0)
+    m = rng.choice([1, 1, 2, 3])
+    new = list(range(ncallers, ncallers + m))
+    ncallers += m
+    if rng.random() < 0.3:
+        batches.append([g] + [S[:] for _ in new])
+    else:
+        batches.append([g])
+        if rng.random() < 0.5:
+            batches.append([S[:] for _ in new])
+        else:
+            batches += [[S[:]] for _ in new]
+    batches.append([R[:]])
+    batches.append([['answer', k] for k in new])
+    if rng.random() < 0.4:
+        batches.append([gen_goaway(rng, 1)])
+        batches += [[S[:]], [R[:]], [['answer', ncallers]]]
+        ncallers += 1
+    case = {'script': [], 'ka': False, 'batches': batches}
     add_epilogue(case, ncallers)
     return case
 
@@ -269,7 +326,7 @@ def gen_close_window(rng):
     if withhold:
         batches.append([['hold', 0]])
     first = rng.choice(['kaclose', 'kaclose', 'goaway', 'close'] if ka else ['goaway', 'close'])
-    st1 = [first] if first != 'goaway' else ['goaway', 0]
+    st1 = [first] if first != 'goaway' else gen_goaway(rng, 0)
     extra = []
     if rng.random() < 0.3:
         extra = [S[:]]
@@ -355,8 +412,18 @@ def gen_timed(rng):
 
 def check_cases(ctx, res, cases):
     imps = []
+    kept = []
     for case in cases:
-        imps.append(run_impl(case))
+        try:
+            imps.append(run_impl(case))
+            kept.append(case)
+        except Exception as e:      # the implementation did something the harness cannot drive: the tie is broken
+            import traceback
+            res.evaluations += 1
+            res.disagreements.append({'case': case, 'model': None,
+                                      'impl': 'harness could not drive the case: %s: %s | %s' % (
+                                          type(e).__name__, str(e)[:120], traceback.format_exc()[-300:])})
+    cases = kept
     modelled = [i for i, c in enumerate(cases) if not c.get('timed')]
     model = None
     if ctx.model_ok and modelled:
@@ -369,6 +436,8 @@ def check_cases(ctx, res, cases):
             res.count('batch-size:%d' % min(len(b), 4))
             for st in b:
                 res.count('stim:' + st[0])
+                if st[0] == 'goaway' and len(st) > 3:
+                    res.count('goaway:code=%s:last=%s:debug=%s' % (st[2], st[3], int(bool(st[4]))))
         for o, m in case.get('script', []):
             res.count('attempt:%s:%s' % (o, m))
         final = imp['obs'][-1] if imp['obs'] else {'callers': [], 'conns': []}
@@ -389,6 +458,8 @@ def check_cases(ctx, res, cases):
         for what, sig in oracle(case, imp):
             res.oracle_failures.append({'case': case, 'what': what, 'signature': sig,
                                         'observed': imp['lines'][-3:]})
+        for a in imp['anomalies']:
+            res.notes.append(a) if len(res.notes) < 10 else None
         if imp['unhandled']:
             res.count('loop-exception-handler-calls', len(imp['unhandled']))
 
@@ -397,7 +468,8 @@ RULE = ('command-driven schedules on the real Channel: 1-6 initial callers (one 
         'PRNG connect scripts (ok/fail x deferred/inline), then 2-14 batches of 1-3 stimuli applied back to back '
         'inside one loop iteration {start, resolve, answer k, cancel k, lose c, goaway c, close, pause c, resume c, '
         'kaclose (real keepalive timer, 30% of cases), hold c (the transport withholds connection_lost after close())} with indices biased to the newest connection/caller and '
-        'sometimes out of range; a directed family {keepalive close | GOAWAY | close} -> Channel.close() with '
+        'sometimes out of range; GOAWAY is a class (error code x last_stream_id {0, highest seen, 2**31-1} x debug '
+        'data) with a directed family of calls started after it; a directed family {keepalive close | GOAWAY | close} -> Channel.close() with '
         'connection_lost withheld or delayed and registered calls in flight; epilogue: resolve all, deliver withheld '
         'connection_lost, Channel.close(), fresh calls; plus a timed oracle-only '
         'family (asyncio.sleep attempts, quarter-second instants). distinct = distinct sequences of observation '
@@ -413,6 +485,8 @@ def run(ctx):
         cases.append(gen_case(rng))
     for _ in range(ctx.n(400, 6000)):
         cases.append(gen_close_window(rng))
+    for _ in range(ctx.n(400, 6000)):
+        cases.append(gen_after_goaway(rng))
     for _ in range(ctx.n(300, 5000)):
         cases.append(gen_timed(rng))
     check_cases(ctx, res, cases)
